@@ -301,6 +301,9 @@ class H:
                         raise _excs()[step['raise']]('vf injected')
                     if step.get('ret') is None:
                         return
+                    if not _is_num(step['ret']):
+                        yield step['ret']       # not a delta: the routine is not
+                        return                  # re-scheduled by the clock
                     inval = yield step['ret']
             return Routine(vf_rout)
         raise ValueError(kind)
@@ -367,9 +370,14 @@ class H:
 # offline analysis
 # ---------------------------------------------------------------------------
 
+def _is_num(x):
+    # what the clocks take for a delta: a number, not a bool
+    return isinstance(x, (int, float)) and not isinstance(x, bool)
+
+
 def expected_wakes(plan):
     for i, st in enumerate(plan):
-        if st.get('raise') or st.get('ret') is None:
+        if st.get('raise') or not _is_num(st.get('ret')):
             return i + 1
     return len(plan) + 1
 
@@ -561,7 +569,7 @@ def _due_phys(rec, evs):
     if evs:
         last = evs[-1]
         ret = rec['plan'][last[3]].get('ret')
-        if ret is None:
+        if not _is_num(ret):
             return None
         if ck == 'TempoClock':
             return last[4] + ret * slow
@@ -713,7 +721,10 @@ def gen_plan(rng, clocks, p_raise, depth=0):
             st['raise'] = rng.choice(sorted(_excs()))
             steps.append(st)
             return steps
-        st['ret'] = None if last else rng.choice([0, 0, 0.001, 0.004, 0.01, 0.02])
+        # the last value is not a delta: None, or something that is not a
+        # number for the clocks (a bool is not)
+        st['ret'] = (rng.choice([None] * 8 + ['x', True, False, [0.001]]) if last
+                     else rng.choice([0, 0, 0.001, 0.004, 0.01, 0.02]))
         if depth < 2 and rng.random() < 0.25:
             ch = []
             for _ in range(rng.randint(1, 2)):
